@@ -8,7 +8,7 @@ fi
 for pr in $pairs; do
   n=${pr%%:*}; p=${pr##*:}
   s=$(date +%s)
-  out=$(LINES_MAX=400 tools/try_seed.sh $n $p 2>&1)
+  out=$(LINES_MAX=400 tools/try_seed_wt.sh $n $p 2>&1)
   rc=$(echo "$out" | grep -o "exit=[0-9]*" | tail -1)
   nv=$(echo "$out" | grep -c "^VIOLATION")
   echo "$n vs $p: $rc violations=$nv $(( $(date +%s) - s ))s :: $(echo "$out" | grep -E "^  clause=" | head -2 | cut -c1-160 | tr '\n' ' ')"
